@@ -24,7 +24,7 @@ QUICK_TUS = ["src/parameter.cpp", "src/configurable.cpp", "src/solver.cpp", "src
              "src/splitter.cpp", "src/tuner.cpp", "src/generator.cpp", "src/wlearner.cpp", "src/linear.cpp", "src/datasource.cpp",
              "src/function.cpp", "src/solver/lbfgs.cpp", "src/solver/gd.cpp", "src/solver/cgd.cpp", "src/solver/quasi.cpp",
              "src/gboost/model.cpp", "src/gboost/result.cpp", "src/machine/params.cpp", "src/function/constraint.cpp",
-             "src/logger.cpp"]
+             "src/logger.cpp", "src/wlearner/stump.cpp"]
 
 VALUE_FIELDS = {"m_value", "m_value1", "m_value2"}
 PARAM_CLASSES = ("nano::parameter_t::enum_t", "nano::parameter_t::range_t", "nano::parameter_t::pair_range_t")
@@ -463,6 +463,74 @@ def rule_lookup(F, R):
     R.floor("R-C19-6", nv, 3, "typed read instantiations")
 
 
+def rule_enum_roundtrip(F, R):
+    """R-C19-7: an enumeration parameter is stored as its name and read back through from_string<enum>(): for every enumerator of every
+    enum_string<> map the lookup algorithm (loops in order, exact or prefix matching) must return that enumerator"""
+    fs = [f for f in F.functions.values() if f.qn == "nano::from_string" and f.relfile == "include/nano/core/strutil.h" and any(x["k"] == "rangefor" for x in f.nodes())]
+    R.floor("R-C19-7/from_string", len(fs), 3, "from_string<enum> instantiations")
+    algos = set()
+    for f in fs:
+        sp_ = f.params[0]["n"]
+        steps = []
+        okshape = True
+        for lp in [x for x in f.nodes() if x["k"] == "rangefor"]:
+            var = lp["c"][lp["r"].index("var")]
+            rng = pp(lp["c"][lp["r"].index("range")])
+            ifs = [y for y in walk(lp["c"][lp["r"].index("body")]) if y["k"] == "if"]
+            rets = [y for y in walk(lp) if y["k"] == "return" and y.get("c")]
+            if len(ifs) != 1 or len(rets) != 1 or pp(rets[0]["c"][0]) != "%s.first" % var["n"]:
+                okshape = False
+                break
+            c = pp(ifs[0]["c"][ifs[0]["r"].index("cond")])
+            o = var["n"]
+            if c in ("(%s.second == %s)" % (o, sp_), "(%s == %s.second)" % (sp_, o)):
+                steps.append("exact")
+            elif c in ("(%s.find(%s.second, 0) == 0)" % (sp_, o), "(%s.rfind(%s.second, 0) == 0)" % (sp_, o)):
+                steps.append("prefix")
+            else:
+                okshape = False
+                break
+            if rng != "options":
+                okshape = False
+                break
+        if not okshape:
+            R.incomplete("R-C19-7", "from_string@" + f.key[:70], f.loc(), "the enumeration lookup no longer has the loop-and-match shape the rule understands")
+            return
+        algos.add(tuple(steps))
+    if len(algos) != 1:
+        R.incomplete("R-C19-7", "from_string", fs[0].loc() if fs else "-", "instantiations disagree on the lookup algorithm: %s" % sorted(algos))
+        return
+    steps = list(algos)[0]
+    maps = {}
+    for e in F.functions.values():
+        if e.qn != "nano::enum_string" or e.params:
+            continue
+        rets = [x for x in e.nodes() if x["k"] == "return" and x.get("c")]
+        if len(rets) != 1:
+            continue
+        pairs = []
+        for c in walk(rets[0]):
+            if c["k"] == "construct" and (c.get("cls") or "").endswith("pair") and len(c.get("c", ())) == 2:
+                a0, a1 = skip(c["c"][0]), skip(c["c"][1])
+                strs = [y for y in walk(a1) if y["k"] == "str"]
+                if a0 is not None and strs:
+                    pairs.append((pp(a0), strs[0]["v"]))
+        if pairs:
+            maps.setdefault(e.key, (e, pairs))
+    R.floor("R-C19-7/enums", len(maps), 10, "enum_string<> maps")
+    for key, (e, pairs) in sorted(maps.items()):
+        def lookup(s_):
+            for st in steps:
+                for en, nm in pairs:
+                    if (st == "exact" and nm == s_) or (st == "prefix" and s_.startswith(nm)):
+                        return en
+            return None
+        bad = [(en, nm, lookup(nm)) for en, nm in pairs if lookup(nm) != en]
+        inst = key.split("<")[1].split(">")[0] if "<" in key else key
+        R.check(not bad, "R-C19-7", inst, e.loc(), "every enumerator's name is read back as that enumerator (%s lookup)" % " then ".join(steps),
+                "name `%s` of %s is read back as %s: an accepted assignment of this value is not read back as assigned" % (bad[0][1], bad[0][0], bad[0][2]) if bad else "")
+
+
 def run(ctx):
     R = ctx.report
     tus = ctx.all_tus() if ctx.thorough else QUICK_TUS
@@ -473,3 +541,4 @@ def run(ctx):
     rule_defaults(F, R, fns, ctx.thorough)
     rule_clone(F, R, fns, ctx.thorough)
     rule_lookup(F, R)
+    rule_enum_roundtrip(F, R)
